@@ -221,6 +221,32 @@ Phase 5 (C04) — fixed-size / dynamic-size mixtures and vectors of points as da
   matrices (`const Eigen::Matrix3d a[3] = {A, B, C};`, typedef names `Matrix2…4 d|f` / `Vector2…4 d|f`) is an aggregate whose element `k` is
   the path component `(k,)`, `a[k]` with a constant `k` (also the `k` of an unrolled loop) and `const M & x = a[k];` address it.
 
+Phase 6 (C08) — spec option `pointer_arrays`: raw pointers to scalars as the arrays they point into
+* a variable / data member / parameter of type `T *` (`const T *`, `T *const`), T a floating or integer type, is ONE list leaf (type codes
+  `la ld li`), read exactly like a `std::vector<T>` in the 'plain' encoding: `p[i]` is `List.getD p (Int.toNat i) 0`, `p[i] = x` /
+  `p[i] op= x` is `List.set p (Int.toNat i) x` (an out-of-range access, undefined behaviour in C++, reads the default / writes nothing;
+  sizes are not tracked — the bridge carries `capacity ≤ length` as a representation invariant); a pointer written through inside a loop
+  is loop-carried; `p = q;` (a pointer assignment, e.g. `indices = indices_` in `KNNResultSet::init`) copies the WHOLE list: the object
+  then OWNS the array — valid only while nothing else writes the caller's array during the object's life (a contract of the spec; the
+  aliasing with the caller's `std::vector` is not represented) —; the null pointer constant is the empty list; `&x` stays
+  untranslatable. The option is independent of `vector_encoding` (a pointer has no checked reading);
+* WALKING pointers (same option; `ptr_walk_rewrite`, a rewrite of a COPY of the function's AST into index form before the ordinary
+  translation): a pointer PARAMETER `a` that takes part in pointer arithmetic is the pair (list `a`, synthetic local `long a_off = 0`);
+  a LOCAL pointer initialised from arithmetic on such a pointer and never assigned again (`const T * last = a + size;`) is a `long`, its
+  offset in `a`'s array; `a[k]` = `a[a_off + k]`, `*a` = `a[a_off]`, `*a++` = `a[a_off++]`, `a += n` / `++a` act on `a_off`; comparisons and
+  differences of pointers into the SAME array act on offsets (unbounded `Int`s: the one-before-the-begin pointer `last - 3` with
+  `size < 3`, formally undefined in C++, is a negative offset); any other use (passed on, stored, assigned, compared with a pointer into
+  another array) is untranslatable;
+* `return e;` INSIDE a loop (`loop_return_rewrite`, on a copy of the AST, innermost loop first; not gated by an option — such functions
+  were untranslatable before): `bool ret_set_N = false; T ret_val_N = T(); while (c) { … { ret_val_N = e; ret_set_N = true; break; } … }
+  if (ret_set_N) return ret_val_N;` — scalar results only, the loop must be a direct statement of a block;
+* `uninterpreted: {name: {'member': True}}`: a member function WITHOUT a body called on a CONST object with scalar arguments
+  (`data_source.kdtree_get_pt(idx, dim)`) is a function-typed parameter of the translated function (the unchanging object is part of
+  that function);
+* `(std::numeric_limits<T>::max)()` — the macro-proof spelling with a parenthesised callee — is `Limits.maxVal` like `numeric_limits<T>::max()`;
+* a translation unit may consist of headers only plus `extra` lines (`template class nanoflann::KNNResultSet<double, size_t, size_t>;`: the
+  members of a class template have bodies in clang's AST only when instantiated); `filter` selects the dumped namespace.
+
 Anything else (function-local `static`, writes to globals, unknown calls, unsupported statements) makes the function
 UNTRANSLATABLE: the generated file then holds a comment with the reason and no definition of that name, so that the
 bridge theorem about it no longer compiles.
@@ -228,7 +254,7 @@ bridge theorem about it no longer compiles.
 Spec-wide keys, besides `id sources headers extra filter extra_filters macros imports opens functions uninterpreted externs strip_ns`:
 `vector_encoding` ('checked' | 'plain'), `opaque_elements`, `incr_encoding` ('inline' | 'let'), `unsigned_wrap`,
 `fold_constant_conditions`, `unroll_constant_loops`, `abstract_classes` (list of class names), `whole_containers`, `range_for`,
-`oracles`, `source_getters` (phase 3), `dyn_sizes`, `oracle_classes` (phase 4), `transform_oracles` (phase 5). The defaults give the first-listed / option-less reading. A fixed-size `Eigen::Array<T, r, c>` has the
+`oracles`, `source_getters` (phase 3), `dyn_sizes`, `oracle_classes` (phase 4), `transform_oracles` (phase 5), `pointer_arrays` (phase 6). The defaults give the first-listed / option-less reading. A fixed-size `Eigen::Array<T, r, c>` has the
 leaves of the `Matrix` of that shape.
 Only the Python standard library is used.
 """
@@ -647,6 +673,7 @@ def is_atomic(t):
 # ---- sequence containers as Lean lists (std::vector / std::queue / std::deque of scalars; of opaque elements when the spec asks)
 LIST_OPTS = {'opaque': False, 'encoding': 'checked', 'dyn_sizes': False}      # set per spec by translate()
 LIST_RE = re.compile(r'^(?:std::)?(?:__cxx11::)?(vector|queue|deque)<')
+PTR_ARRAY_RE = re.compile(r'^(?:const\s+)?([\w: ]+?)(?:\s+const)?\s*\*$')      # (C08) `T *` / `const T *`, T a scalar type name
 
 
 def first_template_arg(t):
@@ -669,6 +696,12 @@ def first_template_arg(t):
 def list_elem(t):
     """C++ element type of a sequence container type translated as a Lean list (None: not such a type)"""
     t = strip_cv(t)
+    if LIST_OPTS.get('pointer_arrays') and t.endswith('*const'):      # `T *const` (a pointer member seen from a const method)
+        t = t[:-len('const')]
+    if LIST_OPTS.get('pointer_arrays') and PTR_ARRAY_RE.match(t):
+        # (C08) spec option `pointer_arrays`: a pointer to a scalar IS the array it points into (a Lean list owned by the object)
+        elp = PTR_ARRAY_RE.match(t).group(1).strip()
+        return elp if classify(elp) in ('int', 'uint', 'double', 'float') else None
     if not LIST_RE.match(t):
         return None
     el = first_template_arg(t)
@@ -1623,6 +1656,10 @@ class Translator:
         if ck in ('IntegralToBoolean',):
             v = self.eval(inner, env, pre)
             return Sc('(%s ≠ 0)' % v.t, 'p')
+        if ck == 'NullToPointer' and LIST_OPTS.get('pointer_arrays') and classify(type_of(n)) == 'seq':
+            # (C08) the null pointer, as an array: no element (every access through it is undefined behaviour in C++, the default here)
+            lty = self.tyvar(frame, type_of(n))
+            return Sc('([] : %s)' % TY_LEAN[lty], lty)
         raise Untranslatable('cast %s' % ck)
 
     def eval_unary(self, n, env, pre):
@@ -1910,6 +1947,15 @@ class Translator:
                     t = self.arith('*', x, y, ety, frame)
                     acc = t if acc is None else self.arith('+', acc, t, ety, frame)
                 return acc
+            if (self.spec.get('uninterpreted', {}).get(nm) or {}).get('member') and 'const' in type_of(base):
+                # phase 6 (C08): a member function without a body, listed as `uninterpreted: {name: {'member': True}}`, called on a CONST object
+                # (`data_source.kdtree_get_pt(idx, dim)`): an uninterpreted function of its scalar arguments — a parameter of the translated
+                # function; its dependence on the (unchanging) object is the parameter itself
+                vs = [self.eval(a, env, pre) for a in n['inner'][1:]]
+                rty = self.tyvar(frame, type_of(n))
+                fty = ' → '.join([TY_LEAN[v.ty] for v in vs] + [TY_LEAN[rty]])
+                fn = self.uninterp_param(env, nm, fty)
+                return Sc('(%s %s)' % (fn, ' '.join(par(v.t) for v in vs)), rty)
             return self.unknown_call(nm, n, env, pre)
         callee = self.callee_ref(n)
         rd = callee.get('referencedDecl') or {}
@@ -1932,6 +1978,14 @@ class Translator:
         if nm in ('epsilon', 'max', 'lowest', 'min') and not args and classify(type_of(n)) in ('double', 'float'):
             # phase 2: `std::numeric_limits<Scalar>::max()` with a type alias: the floating type is the call's result type
             m = re.match(r'^\s*(std::)?numeric_limits<\s*(?:typename\s+)?[\w:]+\s*>::(epsilon|max|lowest|min)\s*\(\s*\)\s*$', self.tu.range_text(n))
+            if m:
+                ty = self.tyvar(frame, type_of(n))
+                frame.need('Limits', ty)
+                fld = {'epsilon': 'eps', 'max': 'maxVal', 'lowest': 'lowest', 'min': 'minPos'}[m.group(2)]
+                return Sc('(Limits.%s : %s)' % (fld, TY_LEAN[ty]), ty)
+        if nm in ('epsilon', 'max', 'lowest', 'min') and not args and classify(type_of(n)) in ('double', 'float'):
+            # (C08) the macro-proof spelling `(std::numeric_limits<T>::max)()` (parenthesised callee)
+            m = re.match(r'^\s*\(\s*(std::)?numeric_limits<\s*(?:typename\s+)?[\w:]+\s*>::(epsilon|max|lowest|min)\s*\)\s*\(\s*\)\s*$', self.tu.range_text(n))
             if m:
                 ty = self.tyvar(frame, type_of(n))
                 frame.need('Limits', ty)
@@ -2645,11 +2699,32 @@ class Translator:
         return callee.get('name')
 
     def is_list_index(self, m):
+        if LIST_OPTS.get('pointer_arrays') and self.ptr_index(m):
+            return True
         if m.get('kind') != 'CXXOperatorCallExpr' or len(m.get('inner', [])) != 3:
             return False
         if (self.callee_ref(m).get('referencedDecl') or {}).get('name') != 'operator[]':
             return False
         return classify(type_of(m['inner'][1])) == 'seq'
+
+    def ptr_index(self, m):
+        """(C08) spec option `pointer_arrays`: `p[i]` (ArraySubscriptExpr) with `p` a variable / data member of type pointer to a scalar.
+        The node is normalised IN PLACE to the shape of a container subscript `[callee, base lvalue, index]` (base = the pointer
+        VARIABLE, i.e. the list that stands for the array it points into), so that every reader / writer of `v[i]` on a list-encoded
+        container applies unchanged. Pointer arithmetic, `*p`, `&x` stay untranslatable."""
+        if m.get('_ptr_index'):
+            return True
+        if m.get('kind') != 'ArraySubscriptExpr' or len(m.get('inner', [])) != 2:
+            return False
+        b = strip_noop(m['inner'][0])
+        if b.get('kind') != 'ImplicitCastExpr' or b.get('castKind') != 'LValueToRValue' or not b.get('inner'):
+            return False
+        v = strip_noop(b['inner'][0])
+        if v.get('kind') not in ('DeclRefExpr', 'MemberExpr') or classify(type_of(v)) != 'seq' or not PTR_ARRAY_RE.match(re.sub(r'\*const$', '*', strip_cv(type_of(v)))):
+            return False
+        m['_ptr_index'] = True
+        m['inner'] = [{'kind': 'DeclRefExpr', 'referencedDecl': {'name': 'operator[]'}}, v, m['inner'][1]]
+        return True
 
     def list_value(self, base, env):
         """(root, path, type code, current value) of a list-typed lvalue"""
@@ -2804,7 +2879,10 @@ class Translator:
         else:
             x = self.eval_elem(rhs, ety, env, pre)
         # the list is read again AFTER the right-hand side was evaluated (it cannot have changed: mutators are statements)
-        self.list_store(env, pre, root, path, lty, '(List.set %s %s %s)' % (par(cur.t), it, unpar(x.t) if atomic(x.t) else x.t))
+        xt = unpar(x.t) if atomic(x.t) else x.t
+        if ' ' in xt and not atomic(xt):      # (C08) a compound value (`v[i] = v[i-1]`: an application) keeps its parentheses as an argument
+            xt = '(' + xt + ')'
+        self.list_store(env, pre, root, path, lty, '(List.set %s %s %s)' % (par(cur.t), it, xt))
         return self.wrap(pre, k(env))
 
     # ------------------------------------------------------------------ aggregates
@@ -6091,6 +6169,256 @@ class Translator:
         self.names.add(name)
         return name
 
+    # ------------------------------------------------------------------ phase 6 (C08): walking pointers (spec option `pointer_arrays`)
+    def ptr_walk_rewrite(self, parms, body):
+        """A pointer to a scalar that takes part in pointer arithmetic (`a + n`, `a += 4`, `*a++`, `a < last`) is read as the PAIR (array,
+        offset): the function body is rewritten — on a copy of the AST — into index form, which the ordinary translation then handles:
+        a PARAMETER `a` that walks keeps its name for the array (a list) and gets a synthetic local `long a_off = 0;`; a LOCAL pointer
+        initialised from pointer arithmetic (`const T * last = a + size;`) and never assigned again becomes a `long` (its offset in the
+        array of the parameter it derives from); `a[k]` is `a[a_off + k]`, `*a` is `a[a_off]`, `*a++` is `a[a_off++]`, `a += n` / `++a` act on
+        `a_off`, comparisons / differences of pointers INTO THE SAME ARRAY compare / subtract offsets (offsets are unbounded `Int`s: a
+        one-before-the-begin pointer such as `last - 3` with `size < 3`, formally undefined in C++, is just a negative offset). Every other
+        use of such a pointer (passed on, stored, compared with a pointer into another array, assigned) makes the function untranslatable.
+        Returns `body` itself when no pointer walks."""
+        def is_sptr(t):
+            t = strip_cv(t or '')
+            if t.endswith('*const'):
+                t = t[:-len('const')]
+            m = PTR_ARRAY_RE.match(t)
+            return bool(m) and classify(m.group(1).strip()) in ('int', 'uint', 'double', 'float')
+
+        def ref_id(n):
+            n = strip_noop(n)
+            if n.get('kind') == 'ImplicitCastExpr' and n.get('castKind') == 'LValueToRValue' and n.get('inner'):
+                n = strip_noop(n['inner'][0])
+            return (n.get('referencedDecl') or {}).get('id') if n.get('kind') == 'DeclRefExpr' else None
+
+        pparm = {p_['id']: p_ for p_ in parms if is_sptr(type_of(p_))}
+        walk, der = set(), {}
+
+        def scan(n):
+            k = n.get('kind')
+            inner = n.get('inner', []) or []
+            if k == 'VarDecl' and is_sptr(type_of(n)):
+                der[n['id']] = None
+            if k in ('BinaryOperator', 'CompoundAssignOperator') and inner and is_sptr(type_of(inner[0])) and n.get('opcode') != '=' \
+                    or k == 'UnaryOperator' and n.get('opcode') in ('++', '--') and is_sptr(type_of(inner[0])):
+                for c in inner:
+                    if ref_id(c) in pparm:
+                        walk.add(ref_id(c))
+            for c in inner:
+                scan(c)
+        scan(body)
+        if not walk and not der:
+            return body
+        if not walk:
+            raise Untranslatable('local pointer variable that does not derive from a walking pointer parameter')
+        import copy
+        body = copy.deepcopy(body)
+        LONG = {'qualType': 'long'}
+        off_id = {a: 'ptroff_%s' % a for a in walk}
+        off_name = {a: (pparm[a].get('name') or 'p') + '_off' for a in walk}
+
+        def off_ref(a):
+            return {'kind': 'DeclRefExpr', 'type': dict(LONG), 'valueCategory': 'lvalue', '_ptr_ok': True,
+                    'referencedDecl': {'id': off_id[a], 'kind': 'VarDecl', 'name': off_name[a], 'type': dict(LONG)}}
+
+        def rval(lv):
+            return {'kind': 'ImplicitCastExpr', 'castKind': 'LValueToRValue', 'type': dict(LONG), 'valueCategory': 'prvalue', 'inner': [lv]}
+
+        def base_of(n):
+            """the walking parameter a pointer-valued expression points into (None: unknown)"""
+            r = ref_id(n)
+            if r in walk:
+                return r
+            if r in der:
+                return der[r]
+            m = strip_noop(n)
+            if m.get('kind') == 'BinaryOperator' and m.get('opcode') in ('+', '-'):
+                bs = [base_of(c) for c in m.get('inner', []) if is_sptr(type_of(c)) or c.get('_was_ptr')]
+                return bs[0] if len(bs) == 1 else None
+            return None
+
+        def subscript(n, a, idx):
+            aref = {'kind': 'DeclRefExpr', 'type': dict(pparm[a].get('type') or {}), 'valueCategory': 'lvalue', '_ptr_ok': True,
+                    'referencedDecl': {'id': a, 'kind': 'ParmVarDecl', 'name': pparm[a].get('name')}}
+            return {'kind': 'ArraySubscriptExpr', 'type': n.get('type'), 'valueCategory': 'lvalue', 'range': n.get('range'),
+                    'inner': [{'kind': 'ImplicitCastExpr', 'castKind': 'LValueToRValue', 'type': dict(pparm[a].get('type') or {}),
+                               'valueCategory': 'prvalue', 'inner': [aref]}, idx]}
+
+        def rw(n):
+            k = n.get('kind')
+            inner = n.get('inner', []) or []
+            if k == 'VarDecl' and n.get('id') in der:
+                init = [c for c in inner if 'Expr' in c.get('kind', '') or 'Operator' in c.get('kind', '')]
+                if len(init) != 1 or base_of(init[0]) is None:
+                    raise Untranslatable('local pointer `%s` that is not initialised from arithmetic on a walking pointer' % n.get('name'))
+                der[n['id']] = base_of(init[0])
+                n['type'] = dict(LONG)
+                n['inner'] = [rw(c) for c in inner]
+                return n
+            if k == 'ArraySubscriptExpr' and len(inner) == 2 and ref_id(inner[0]) in walk:      # a[k] -> a[a_off + k]
+                a = ref_id(inner[0])
+                idx = {'kind': 'BinaryOperator', 'opcode': '+', 'type': dict(LONG), 'valueCategory': 'prvalue',
+                       'inner': [rval(off_ref(a)), rw(inner[1])]}
+                return subscript(n, a, idx)
+            if k == 'UnaryOperator' and n.get('opcode') == '*' and inner:
+                m = strip_noop(inner[0])
+                if m.get('kind') == 'ImplicitCastExpr' and m.get('castKind') == 'LValueToRValue' and m.get('inner'):
+                    m = strip_noop(m['inner'][0])
+                if m.get('kind') == 'UnaryOperator' and m.get('opcode') in ('++', '--') and ref_id(m['inner'][0]) in walk:      # *a++ -> a[a_off++]
+                    a = ref_id(m['inner'][0])
+                    inc = {'kind': 'UnaryOperator', 'opcode': m['opcode'], 'isPostfix': m.get('isPostfix', False), 'type': dict(LONG),
+                           'valueCategory': 'prvalue' if m.get('isPostfix') else 'lvalue', 'inner': [off_ref(a)]}
+                    return subscript(n, a, inc if m.get('isPostfix') else rval(inc))
+                if ref_id(inner[0]) in walk:      # *a -> a[a_off]
+                    a = ref_id(inner[0])
+                    return subscript(n, a, rval(off_ref(a)))
+            if k == 'ImplicitCastExpr' and n.get('castKind') == 'LValueToRValue' and ref_id(n) in walk:      # the VALUE of a walking pointer: its offset
+                r = rval(off_ref(ref_id(n)))
+                r['_was_ptr'] = True
+                return r
+            if k == 'DeclRefExpr' and (n.get('referencedDecl') or {}).get('id') in der:
+                if der[n['referencedDecl']['id']] is None:
+                    raise Untranslatable('pointer `%s` used before its declaration was seen' % n['referencedDecl'].get('name'))
+                n['type'] = dict(LONG)
+                n['_ptr_ok'] = True
+                n['_was_ptr'] = True
+                return n
+            if k in ('CompoundAssignOperator', 'UnaryOperator') and n.get('opcode') in ('+=', '-=', '++', '--') and inner and \
+                    strip_noop(inner[0]).get('kind') == 'DeclRefExpr' and ref_id(inner[0]) in walk:      # a += n, ++a
+                a = ref_id(inner[0])
+                n['inner'] = [off_ref(a)] + [rw(c) for c in inner[1:]]
+                n['type'] = dict(LONG)
+                for key in ('computeLHSType', 'computeResultType'):
+                    if key in n:
+                        n[key] = dict(LONG)
+                return n
+            if k in ('BinaryOperator',) and n.get('opcode') == '=' and inner and (ref_id(inner[0]) in walk or ref_id(inner[0]) in der) \
+                    and strip_noop(inner[0]).get('kind') == 'DeclRefExpr':
+                raise Untranslatable('assignment to a walking pointer')
+            was_ptr = is_sptr(type_of(n)) and k in ('BinaryOperator', 'ImplicitCastExpr', 'ParenExpr')
+            if k == 'BinaryOperator' and n.get('opcode') in ('<', '>', '<=', '>=', '==', '!=', '-') and len(inner) == 2 \
+                    and is_sptr(type_of(inner[0])) and is_sptr(type_of(inner[1])):
+                b0, b1 = base_of(inner[0]), base_of(inner[1])
+                if b0 is None or b0 != b1:
+                    raise Untranslatable('comparison / difference of pointers that are not known to point into the same array')
+            n['inner'] = [rw(c) for c in inner] if inner else n.get('inner')
+            if was_ptr and n.get('inner') and any(c.get('_was_ptr') for c in n['inner']):
+                n['type'] = dict(LONG)
+                n['_was_ptr'] = True
+            return n
+
+        body = rw(body)
+
+        def check(n):
+            if n.get('kind') == 'DeclRefExpr' and not n.get('_ptr_ok') and ((n.get('referencedDecl') or {}).get('id') in walk
+                                                                            or (n.get('referencedDecl') or {}).get('id') in der):
+                raise Untranslatable('unsupported use of the walking pointer `%s`' % (n.get('referencedDecl') or {}).get('name'))
+            for c in n.get('inner', []) or []:
+                check(c)
+        check(body)
+        decls = []
+        for a in sorted(walk, key=lambda x: off_name[x]):
+            lit = {'kind': 'IntegerLiteral', 'value': '0', 'type': dict(LONG), 'valueCategory': 'prvalue'}
+            decls.append({'kind': 'DeclStmt', 'inner': [{'kind': 'VarDecl', 'id': off_id[a], 'name': off_name[a], 'type': dict(LONG), 'init': 'c',
+                                                           'inner': [lit]}]})
+        body['inner'] = decls + (body.get('inner', []) or [])
+        return body
+
+    def loop_return_rewrite(self, body):
+        """phase 6 (C08): `while (c) { …; if (p) return e; … } rest` is rewritten — on a copy of the AST, innermost loops first — into
+        `bool ret_set_N = false; T ret_val_N = T(); while (c) { …; if (p) { ret_val_N = e; ret_set_N = true; break; } … }
+        if (ret_set_N) return ret_val_N; rest` (the C++ meaning exactly: nothing of the loop runs after the `return`), which the ordinary
+        translation of loops with `break` handles; only scalar return values; a `return` inside a `switch` inside the loop, or in a loop that
+        is not a direct statement of a compound statement, stays untranslatable. Returns `body` itself when no loop holds a `return`."""
+        LOOPS = ('WhileStmt', 'ForStmt', 'DoStmt')
+
+        def has_ret(n, top=True):
+            if n.get('kind') == 'ReturnStmt':
+                return True
+            if n.get('kind') == 'LambdaExpr':
+                return False
+            return any(has_ret(c, False) for c in n.get('inner', []) or [] if c)
+
+        def loops_with_ret(n):
+            if n.get('kind') in LOOPS and has_ret(n):
+                return True
+            return any(loops_with_ret(c) for c in n.get('inner', []) or [] if c)
+        if not loops_with_ret(body):
+            return body
+        import copy
+        body = copy.deepcopy(body)
+        counter = [0]
+
+        def replace_returns(n, flag, val, vtype):
+            """inside ONE loop (nested loops were rewritten before: they hold no `return`)"""
+            k = n.get('kind')
+            if k == 'SwitchStmt' and has_ret(n):
+                raise Untranslatable('return inside a switch inside a loop')
+            if k == 'ReturnStmt':
+                e = [c for c in n.get('inner', []) or []]
+                if len(e) != 1:
+                    raise Untranslatable('return without a value inside a loop')
+                asg = {'kind': 'BinaryOperator', 'opcode': '=', 'type': dict(vtype), 'valueCategory': 'lvalue', 'inner': [val(), e[0]]}
+                tru = {'kind': 'CXXBoolLiteralExpr', 'value': True, 'type': {'qualType': 'bool'}, 'valueCategory': 'prvalue'}
+                st = {'kind': 'BinaryOperator', 'opcode': '=', 'type': {'qualType': 'bool'}, 'valueCategory': 'lvalue', 'inner': [flag(), tru]}
+                return {'kind': 'CompoundStmt', 'inner': [asg, st, {'kind': 'BreakStmt'}]}
+            if n.get('inner'):
+                n['inner'] = [replace_returns(c, flag, val, vtype) if c else c for c in n['inner']]
+            return n
+
+        def first_ret_type(n):
+            if n.get('kind') == 'ReturnStmt':
+                e = n.get('inner', []) or []
+                return dict(e[0].get('type') or {}) if e else None
+            for c in n.get('inner', []) or []:
+                t = first_ret_type(c) if c else None
+                if t:
+                    return t
+            return None
+
+        def rw(n):
+            if not n.get('inner'):
+                return n
+            n['inner'] = [rw(c) if c else c for c in n['inner']]
+            if n.get('kind') != 'CompoundStmt':
+                if any(c and c.get('kind') in LOOPS and has_ret(c) for c in n['inner']) :
+                    raise Untranslatable('return inside a loop that is not a direct statement of a block')
+                return n
+            out = []
+            for c in n['inner']:
+                if c.get('kind') in LOOPS and has_ret(c):
+                    counter[0] += 1
+                    vtype = first_ret_type(c)
+                    if vtype is None or classify(vtype.get('desugaredQualType') or vtype.get('qualType') or '') not in ('double', 'float', 'int', 'uint', 'bool'):
+                        raise Untranslatable('return of a non-scalar inside a loop')
+                    fid, vid = 'retset_%d_%s' % (counter[0], c.get('id')), 'retval_%d_%s' % (counter[0], c.get('id'))
+                    fname, vname = 'ret_set_%d' % counter[0], 'ret_val_%d' % counter[0]
+                    BOOL = {'qualType': 'bool'}
+
+                    def flag(fid=fid, fname=fname):
+                        return {'kind': 'DeclRefExpr', 'type': dict(BOOL), 'valueCategory': 'lvalue',
+                                'referencedDecl': {'id': fid, 'kind': 'VarDecl', 'name': fname, 'type': dict(BOOL)}}
+
+                    def val(vid=vid, vname=vname, vtype=vtype):
+                        return {'kind': 'DeclRefExpr', 'type': dict(vtype), 'valueCategory': 'lvalue',
+                                'referencedDecl': {'id': vid, 'kind': 'VarDecl', 'name': vname, 'type': dict(vtype)}}
+                    fal = {'kind': 'CXXBoolLiteralExpr', 'value': False, 'type': dict(BOOL), 'valueCategory': 'prvalue'}
+                    out.append({'kind': 'DeclStmt', 'inner': [{'kind': 'VarDecl', 'id': fid, 'name': fname, 'type': dict(BOOL), 'init': 'c', 'inner': [fal]}]})
+                    zero = {'kind': 'CXXScalarValueInitExpr', 'type': dict(vtype), 'valueCategory': 'prvalue'}
+                    out.append({'kind': 'DeclStmt', 'inner': [{'kind': 'VarDecl', 'id': vid, 'name': vname, 'type': dict(vtype), 'init': 'c', 'inner': [zero]}]})
+                    out.append(replace_returns(c, flag, val, vtype))
+
+                    def rv(lv, t):
+                        return {'kind': 'ImplicitCastExpr', 'castKind': 'LValueToRValue', 'type': dict(t), 'valueCategory': 'prvalue', 'inner': [lv]}
+                    out.append({'kind': 'IfStmt', 'inner': [rv(flag(), BOOL), {'kind': 'CompoundStmt', 'inner': [{'kind': 'ReturnStmt', 'inner': [rv(val(), vtype)]}]}]})
+                else:
+                    out.append(c)
+            n['inner'] = out
+            return n
+        return rw(body)
+
     def translate_fn(self, decl, suffix='', outputs=None, consts=None):
         fid = decl['id']
         if consts:      # phase 2: the function specialised to constant integer arguments {parameter index: value}
@@ -6164,6 +6492,9 @@ class Translator:
         parms = [c for c in decl.get('inner', []) or [] if c.get('kind') == 'ParmVarDecl']
         pindex = {p['id']: i for i, p in enumerate(parms)}
         body = [c for c in decl.get('inner', []) or [] if c.get('kind') == 'CompoundStmt'][0]
+        if self.spec.get('pointer_arrays'):      # phase 6: a pointer that WALKS through its array = the array + an integer offset
+            body = self.ptr_walk_rewrite(parms, body)
+        body = self.loop_return_rewrite(body)      # phase 6: `return e;` inside a loop = set a flag + the value, `break`, return after the loop
         inits = [c for c in decl.get('inner', []) or [] if c.get('kind') == 'CXXCtorInitializer']
         prev = None
         for pass_no in (1, 2):
@@ -6293,6 +6624,7 @@ def translate(repo, scratch, spec):
     LIST_OPTS['opaque'] = bool(spec.get('opaque_elements'))
     LIST_OPTS['encoding'] = spec.get('vector_encoding', 'checked')
     LIST_OPTS['dyn_sizes'] = bool(spec.get('dyn_sizes'))      # phase 4
+    LIST_OPTS['pointer_arrays'] = bool(spec.get('pointer_arrays'))      # (C08) pointers to scalars as arrays (lists)
     if LIST_OPTS['encoding'] not in ('checked', 'plain'):
         raise ValueError("spec key `vector_encoding` must be 'checked' or 'plain'")
     if spec.get('incr_encoding', 'inline') not in ('inline', 'let'):
